@@ -45,6 +45,7 @@ THEOREMS = [
     'Nb.C13.shared_image_header_counterexample',
     'Nb.C13.readonly_read_iff',
     'Nb.C13.readonly_edit_is_noop',
+    'Nb.C13.source_constants',
 ]
 ASSUMPTIONS = [
     'hand-written Lean model of DataobjImage.get_fdata/get_data/in_memory/uncache and of what '
